@@ -99,13 +99,13 @@ class C05(Prop):
             if k in ("CI", "UPDATE_SNAPS", "CONTINUOUS_INTEGRATION", "BUILD_NUMBER", "RUN_ID") or k.startswith(("GITHUB_", "GITLAB_", "JENKINS_", "BUILDKITE", "TRAVIS", "CIRCLE")):
                 env.pop(k)
         binp = os.path.join(workdir, "bbmode.test")
-        p = subprocess.run(["go", "test", "-c", "-vet=off", "-o", binp, "."], cwd=mod, env=env, stdout=subprocess.PIPE, stderr=subprocess.STDOUT, text=True, errors="replace")
+        p = subprocess.run(["go", "test", "-c", "-vet=off", "-o", binp, "."], cwd=mod, env=env, stdout=subprocess.PIPE, stderr=subprocess.STDOUT, text=True, errors="replace", timeout=900)
         if p.returncode != 0:
             return [{"msg": "black-box build failed: " + p.stdout[-800:]}], {}
         snapdir = os.path.join(mod, "__snapshots__")
 
         def run(e):
-            q = subprocess.run([binp, "-test.count=1"], cwd=mod, env=dict(env, **e), stdout=subprocess.PIPE, stderr=subprocess.STDOUT, text=True, errors="replace")
+            q = subprocess.run([binp, "-test.count=1"], cwd=mod, env=dict(env, **e), stdout=subprocess.PIPE, stderr=subprocess.STDOUT, text=True, errors="replace", timeout=900)
             img = {}
             if os.path.isdir(snapdir):
                 for f in sorted(os.listdir(snapdir)):
